@@ -11,16 +11,22 @@ RULE = ("constructive: every string is RENDERED from a known value with the stdl
         "with '.' and ',' x offsets Z/+-hh/+-hhmm/+-hh:mm in -23:59..+23:59 x {T, space} x API (parse_iso8601 directly, "
         "pendulum.parse with exact and tz options). quick: all days of 8 seed-chosen years covering both leap kinds and all "
         "Jan-1 weekdays, every month end of every year 1583..9999 (forms rotated by seed), seeded date-times, time-only strings, "
+        "reduced-precision times (reduced-precision-grid, deterministic: every hour 00..23 in the layouts HH, HH:MM, THH, THH:MM, THHMM x 16 "
+        "offset renderings of every style x parse_iso8601 and pendulum.parse with exact/tz options, and <date>(T| )HH, <date>(T| )HH:MM / HHMM for "
+        "eight dates x six date forms x the same offsets; reduced-precision: seeded ones over random dates, hours and offsets), "
         "impossible dates/weeks/ordinals that must be rejected, inverse checks parse(render(dt)) for pendulum's own renderers, "
         "and mutated strings for the regex-group / rejection correspondence. thorough: every date 1583-01-01..9999-12-31 in each "
         "of the six forms. A case is non-trivial when its batch of strings is distinct; each string is checked three ways "
         "(implementation vs Coq model, both backends; implementation vs the value it was rendered from).")
 EXHAUSTIVE = {"quick": False, "thorough": True}
 TRUSTED = ["rustc/pyo3: rust/src/parsing.rs and rust/src/python/parsing.rs are modelled by hand in coq/Model/IsoParse.v (rs_*), tables generated from constants.rs",
-           "CPython `re`: the regex matcher coq/Model/C07Regex.v is a hand-written backtracking engine; the regex ASTs it runs are generated from /repo's "
+           "CPython `re`: the regex matcher coq/Model/C07Regex.v is a hand-written backtracking engine (its shape invariance and span/text agreement are "
+           "PROVED for any regex in Proofs/RegexShape.v; that it is CPython's semantics is trusted); the regex ASTs it runs are generated from /repo's "
            "pattern strings by CPython's own pattern parser and the per-group match results are compared with re on every run (regex-groups stream)",
            "the string-level post-match code of parse_iso8601/_parse_common (group tests, int(), slicing, strptime('%Y-%j')) is modelled by hand; "
            "the integer post-match code (ordinal loop, _get_iso_8601_week core) is translated from /repo on every run (Gen/IsoPost.v)",
+           "the text forms of Model/IsoRender.v, IsoForms.v, IsoFormsPrec.v (the specification side of the round-trip theorems: how a value is written) are hand-written; "
+           "the harness renders the same forms independently with the stdlib and whole years are rendered in Coq and compared (whole-years-rendered-in-coq)",
            "CPython datetime constructors' range checks are modelled by valid_date/valid_time; Spec/Cal.v models date.fromordinal/toordinal"]
 ASSUMPTIONS = ["inputs are ASCII strings without '/' (intervals), not starting with 'P' (durations) and not 'now'; Python's \\d is then 0-9",
                "tz option of pendulum.parse is None or a fixed offset; `now` is passed explicitly for time-only strings"]
@@ -264,6 +270,77 @@ def items_times(seed, n):
     return out
 
 
+# ----------------------------------------------------------------------------- reduced precision (hour, hour-minute), alone or after a date
+# the time-only layouts (prefix, extended, level) the theorems of Props/C07.v cover; bare "HHMM" is a four-digit year, not a time
+RP_TIME_LAYOUTS = (("", False, 1), ("", True, 2), ("T", False, 1), ("T", True, 2), ("T", False, 2))
+RP_OFFSETS = ((None, ""), (0, "Z"), (0, "hh"), (0, "hh:mm"), (18000, "hh"), (-18000, "hh"), (19800, "hhmm"), (-19800, "hhmm"), (19800, "hh:mm"), (-12600, "hh:mm"),
+              (86340, "hh:mm"), (-86340, "hhmm"), (82800, "hh"), (-82800, "hh"), (60, "hh:mm"), (-60, "hhmm"))
+RP_DATES = ((2021, 1, 15), (2020, 2, 29), (2021, 1, 31), (2018, 12, 31), (1583, 1, 1), (9999, 12, 31), (2024, 12, 30), (2000, 2, 28))
+
+
+def rp_time_item(prefix, ext, level, H, M, off, style, api, exact, tz):
+    M2 = M if level >= 2 else 0
+    s = prefix + render_time(H, M2, 0, None, ext, level) + render_offset(off, style)
+    form = "time-bare-hour" if (not prefix and level == 1) else "time-reduced"
+    return {"s": s, "api": api, "exact": exact, "tz": tz, "exp": exp_time(H, M2, 0, 0, off, api, exact, tz), "form": form, "hour": H}
+
+
+def rp_datetime_item(d, form, sep, level, H, M, off, style, api, exact, tz):
+    M2 = M if level >= 2 else 0
+    s = render_date(d, form) + sep + render_time(H, M2, 0, None, "ext" in form, level) + render_offset(off, style)
+    return {"s": s, "api": api, "exact": exact, "tz": tz, "exp": exp_datetime(d, H, M2, 0, 0, off, api, tz), "form": form,
+            "monthend": int(d == _dt.date.max or (d + _dt.timedelta(days=1)).day == 1), "reduced": level}
+
+
+def items_reduced_det(part):
+    """deterministic: part 0..23 = that hour in every time-only layout x every offset style x both APIs; part 24.. = one date of RP_DATES in the
+    six date forms x {T, space} x {HH, HH:MM / HHMM} x the offset styles (hours and minutes rotated)"""
+    out = []
+    if part < 24:
+        H = part
+        for prefix, ext, level in RP_TIME_LAYOUTS:
+            for j, (off, style) in enumerate(RP_OFFSETS):
+                M = (0, 30, 59, 1, 7)[(H + j) % 5]
+                out.append(rp_time_item(prefix, ext, level, H, M, off, style, "iso", 1, None))
+                out.append(rp_time_item(prefix, ext, level, H, M, off, style, "top", (H + j) % 2, (None, 3600, -18000)[(H + j) % 3]))
+        return out
+    d = _dt.date(*RP_DATES[part - 24])
+    k = part
+    for form in FORMS:
+        if not form_ok(d, form):
+            continue
+        for sep in "T ":
+            for level in (1, 2):
+                for off, style in RP_OFFSETS:
+                    k += 1
+                    H, M = (k * 7) % 24, (k * 13) % 60
+                    out.append(rp_datetime_item(d, form, sep, level, H, M, off, style, "iso", 1, None))
+                    if k % 3 == 0:
+                        out.append(rp_datetime_item(d, form, sep, level, H, M, off, style, "top", k % 2, (None, 20700)[k // 3 % 2]))
+    return out
+
+
+def items_reduced(seed, n):
+    rnd = random.Random(seed)
+    out = []
+    for _ in range(n):
+        H, M, _S = rand_time(rnd)
+        off, style = rand_off(rnd)
+        api = rnd.choice(("iso", "top"))
+        exact = 1 if api == "iso" else rnd.randrange(2)
+        tz = rnd.choice((None, None, 3600, -18000, 20700)) if api == "top" else None
+        if rnd.random() < 0.5:
+            prefix, ext, level = rnd.choice(RP_TIME_LAYOUTS + (("", False, 1),))
+            out.append(rp_time_item(prefix, ext, level, H, M, off, style, api, exact, tz))
+        else:
+            d = rand_date(rnd)
+            form = rnd.choice(FORMS + ("week-ext-noday", "week-bas-noday") if d.isoweekday() == 1 else FORMS)
+            if not form_ok(d, form):
+                form = "cal-bas"
+            out.append(rp_datetime_item(d, form, rnd.choice("T "), rnd.choice((1, 2)), H, M, off, style, api, exact, tz))
+    return out
+
+
 def items_invalid(seed, n):
     """impossible dates / weeks / ordinals / times: must be rejected"""
     rnd = random.Random(seed)
@@ -382,6 +459,10 @@ def expand(c):
         return items_datetimes(a[0], a[1])
     if fn == "times":
         return items_times(a[0], a[1])
+    if fn == "reduced":
+        return items_reduced(a[0], a[1])
+    if fn == "reduced_det":
+        return items_reduced_det(a[0])
     if fn == "invalid":
         return items_invalid(a[0], a[1])
     if fn == "mutated":
@@ -439,6 +520,12 @@ def cases(tier, seed):
         out.append({"stream": "impossible-rejected", "fn": "invalid", "args": [seed * 100043 + i, 300]})
         out.append({"stream": "inverse-of-renderers", "fn": "inverse", "args": [seed * 100057 + i, 100]})
         out.append({"stream": "mutated-and-regex-groups", "fn": "mutated", "args": [seed * 100069 + i, 400]})
+    # reduced-precision times (hour, hour-minute), alone and after a date: every hour x every time-only layout x every offset style, eight
+    # dates x six forms x both separators (deterministic), and seeded ones
+    for part in range(24 + len(RP_DATES)):
+        out.append({"stream": "reduced-precision-grid", "fn": "reduced_det", "args": [part]})
+    for i in range(nb // 4):
+        out.append({"stream": "reduced-precision", "fn": "reduced", "args": [seed * 100081 + i, 300]})
     # the documented witnesses of finding rs-ordinal-month-end (repaired: they must now PASS the oracle in both backends), always present
     out.append({"stream": "witnesses", "fn": "strings", "args": ["iso", 1, None, ["2021-031", "2021-365", "2021-W13-3", "2021W133", "2020-W53-4", "2021-030", "2021-W13-2"]]})
     out += witness_dates()
@@ -675,6 +762,10 @@ def _failures(c, backend, r):
     return out
 
 
+import re as _re
+_BARE_HOUR = _re.compile(r"[0-9]{2}(Z|[+-][0-9]{2}(:?[0-9]{2})?)?")
+
+
 def _classify(it, backend, got, compact):
     form = it["form"]
     rejected = (got == -1) if compact else (isinstance(got, list) and got[0] == 1)
@@ -693,6 +784,10 @@ def _classify(it, backend, got, compact):
     # compiled parser: bare hhmmss is not a time at all
     if backend == "rs" and form == "time-bare-basic" and rejected:
         return "rs-bare-hhmmss-rejected"
+    # finding rs-bare-hour-rejected: the compiled parser has no reading for a bare hour "HH" (with or without an offset): exactly two digits,
+    # then nothing, Z, or +-hh / +-hhmm / +-hh:mm (Props/C07.v time_bare_hour_rs_rejected); the pure-Python parser reads time(H, 0, 0)
+    if backend == "rs" and form == "time-bare-hour" and rejected and _BARE_HOUR.fullmatch(it["s"]):
+        return "rs-bare-hour-rejected"
     # compiled parser: "T" + extended time WITH seconds is refused (basic "date" format + extended time format)
     s = it["s"]
     if backend == "rs" and form == "time" and rejected and s[:1] == "T" and len(s) >= 9 and s[3] == ":" and s[6] == ":":
@@ -716,14 +811,32 @@ def known(c, backend, r):
 
 
 LEVEL_TEXT = ("Machine-checked Coq theorems about executable models of both ISO 8601 parsers (Rust: hand model of the recursive descent and the pyo3 glue; "
-              "Python: the generated regex AST run by a Coq backtracking matcher plus translated integer post-match code): the ordinal-day and ISO-week "
-              "conversions of BOTH backends equal the proleptic Gregorian calendar of Spec/Cal.v for every year and every day / week date, month ends "
-              "included (the compiled parser's off-by-one on month ends, finding rs-ordinal-month-end, is repaired and its full-strength theorems "
-              "ordinal_rs_spec / week_rs_spec / ordinal_rs_eq_py / week_rs_eq_py are proved; a week date is accepted exactly when it exists, week 00 "
-              "and weekday 0 are refused since the repair of finding week-zero-accepted), n-digit fields / fractions / offsets parse to their value, and the extended calendar form round-trips; plus a "
-              "three-way correspondence (implementation both backends / model / the value each string was rendered from), exhaustive over all dates "
-              "1583..9999 in six forms in the thorough tier.")
+              "Python: the generated regex AST run by a Coq backtracking matcher plus translated integer post-match code). Calendrical core: the ordinal-day and "
+              "ISO-week conversions of BOTH backends equal the proleptic Gregorian calendar of Spec/Cal.v for every year and every day / week date, month ends "
+              "included (ordinal_rs_spec / week_rs_spec / ordinal_rs_eq_py / week_rs_eq_py after the repair of rs-ordinal-month-end; a week date is accepted exactly "
+              "when it exists, week 00 and weekday 0 refused since the repair of week-zero-accepted); n-digit fields, fractions of any length (truncation to six digits) "
+              "and offsets parse to their value. End to end, UNIVERSALLY over the values, for both backends: Proofs/RegexShape.v proves that the matcher returns the same "
+              "spans on inputs its character tests cannot tell apart (regex_shape_invariance), the generated ISO8601_DT is blind to digits, to 'T' vs ' ' and to '.' vs ',' "
+              "(iso_regex_blind_to_digits_and_separators), and the spans of its 26 groups are a closed form checked on all 720 shapes in the kernel; hence parse(text(v)) = v for "
+              "every valid date in the six date forms (calendar / ordinal / week x extended / basic) alone (parse_render_date_forms_py/_rs) and combined with T or space and "
+              "every time of day, fraction absent or any 1..9 digits after '.' or ',', offset absent / Z / +-hh / +-hhmm / +-hh:mm up to 23:59 (parse_forms_datetime_py/_rs, "
+              "through pendulum.parse with any exact / tz / now: parse_top_forms_datetime; parse inverts isoformat()/str()/to_rfc3339_string(): parse_inverts_isoformat_py/_rs), "
+              "reduced precision <date>(T| )HH and HH:MM / HHMM (parse_forms_datetime_reduced_py/_rs, parse_top_forms_datetime_reduced), time only HH:MM:SS, THHMMSS, "
+              "THH:MM:SS (py) and bare HHMMSS (py: time_bare_hhmmss_py, every valid time), reduced time only THH, THH:MM, THHMM, HH:MM and bare HH (py) "
+              "(parse_forms_time_py/_rs, parse_forms_time_reduced_py/_rs); the backends are proved EQUAL on all of these (rs_eq_py_on_rendered, rs_eq_py_on_date_forms, "
+              "rs_eq_py_on_forms_datetime, rs_eq_py_on_forms_datetime_reduced, rs_eq_py_on_forms_time, rs_eq_py_on_forms_time_reduced) except exactly the three listed "
+              "divergences, each proved universally: time_T_extended_rs_rejected (THH:MM:SS), time_bare_hhmmss_rs_rejected (bare HHMMSS), time_bare_hour_rs_rejected "
+              "(bare HH with or without offset; finding rs-bare-hour-rejected) — refused by the compiled parser, read by the pure-Python one. exact=True returns the narrowest "
+              "type in either backend (exact_date_text_is_a_date, exact_time_text_is_a_time, exact_reduced_time_text_is_a_time; a date with a time is a DateTime whatever exact). "
+              "Week forms carry the side condition ISO year 1001..9998 for the pure-Python path (strptime's %Y) and 1..9999 for the compiled one. Plus a three-way correspondence "
+              "(implementation both backends / model / the value each string was rendered from), exhaustive over all dates 1583..9999 in six forms in the thorough tier.")
 DESIGN_REF = "DESIGN.md section 4 C07"
 LEVEL_NOTE = ("Trusted: Coq kernel+VM, translator, the hand models named in TRUSTED (validated by correspondence on every run), extraction+driver "
-              "(cross-checked with vm_compute). Forms whose end-to-end theorem is not finished are covered by the exhaustive correspondence only.")
-TECHNIQUE = "Coq proof (finite reflection over the leap flag x day-of-year, lia with Euclidean division, symbolic execution of the parsers on shaped strings); differential correspondence; constructive oracle"
+              "(cross-checked with vm_compute). Correspondence/oracle only (no end-to-end theorem): week dates without a weekday (YYYY-Www / YYYYWww), week forms whose ISO year "
+              "is 9999 (or below 1001) in the pure-Python parser, the end-to-end REJECTION of impossible dates / weeks / ordinals / times (proved for the conversion cores: "
+              "ordinal_py_rejects_iff_invalid, ordinal_rs_rejects_out_of_range, week_py/rs_accepts_iff_valid; the strings are in the impossible-rejected stream), the fallback chain of "
+              "pendulum.parse on texts the ISO parser refuses (mutated stream, model vs implementation), and pendulum's own renderers producing the stdlib text (inverse-of-renderers). "
+              "A time-only text through pendulum.parse does not apply a written offset (naive Time with exact=True, now's day in the tz option otherwise): stated as such in "
+              "exact_time_text_is_a_time and expected so by the oracle.")
+TECHNIQUE = ("Coq proof (finite reflection over the leap flag x day-of-year, lia with Euclidean division, symbolic execution of the Rust descent on shaped strings, regex shape "
+             "invariance + one kernel computation per text shape for the pure-Python parser); differential correspondence; constructive oracle")
